@@ -10,3 +10,13 @@ Definition q_tpredict_abs := @tpredict_abs Qc qc_ops.
 Definition q_tgrad := @tgrad Qc qc_ops.
 Definition q_misc_predict := @misc_predict Qc qc_ops.
 Definition q_misc_grad := @misc_grad Qc qc_ops.
+Definition q_mk_grid := @mk_grid Qc qc_ops.
+
+(* concrete instances used by refutation theorems (written here, under stdlib scopes) *)
+Import ListNotations.
+Open Scope Z_scope.
+(* C17: two nodes 0 and 1, weights 1 and -1, evaluation at 1/2, absolute tolerance 1/10;
+   the same configuration with the unit scaled by 1/100 *)
+Definition c17_unit := q_basis1 (qc_make 1 10) [qc_make 0 1; qc_make 1 1] [qc_make 1 1; qc_make (-1) 1] (qc_make 1 2).
+Definition c17_scaled := q_basis1 (qc_make 1 10) [qc_make 0 1; qc_make 1 100] [qc_make 1 1; qc_make (-1) 1] (qc_make 1 200).
+Close Scope Z_scope.
